@@ -164,7 +164,21 @@ fn check_props_level(orig: &crate::model::WPacket, mutated: &crate::model::WPack
 }
 
 fn classify<F: Family>(p: &F::Packet, t: &mut Tape, ctx: &mut Ctx) -> CaseResult {
-    let w = F::project(p);
+    let mut w = F::project(p);
+    // one time in three the valid base is spelled with wider variable byte integers than necessary where every front-end
+    // takes them (remaining length; property length of the types that count it at its wire width): a malformation is
+    // classified the same whatever benign spelling surrounds it
+    if t.chance(1, 3) {
+        if t.flag() {
+            w.rl_width = 2 + t.pick(3) as u8;
+        }
+        if !matches!(w.typ(), 3 | 8 | 9 | 11) && t.flag() {
+            if let Some(ps) = mutate::main_props_mut(&mut w) {
+                ps.width = 2 + t.pick(3) as u8;
+            }
+        }
+        ctx.label("base-with-padded-lengths");
+    }
     // the long-form projection must itself be accepted (otherwise the catalogue has no valid base)
     let base = crate::model::serialize(&w).ok_or_else(|| Violation::new("MQV-INTERNAL: cannot serialise the projection"))?;
     match fam::dec_poll::<F>(&base).result {
